@@ -30,6 +30,9 @@ def families(tier):
         ("a_p_b", D["a_p_b"], 3, 5),
         ("handshake", topos.HANDSHAKE, 3, 4),
         ("ring2_dfix", topos.RINGS_OK["ring2_dfix"], 3, 4),
+        ("ab_required", topos.REQUIRED_IDIOM["ab_required"], 3, 4),
+        ("fan_out_required", topos.REQUIRED_IDIOM["fan_out_required"], 2, 3),
+        ("abc_required", topos.REQUIRED_IDIOM["abc_required"], 0, 3),
         ("tap_scale_and_linear", topos.TAPS["tap_scale_and_linear"], 2, 3),
         ("tap_shared_scale", dict(topos.TAPS["tap_shared_scale"], order=None), 2, 3),
     ]
